@@ -6,6 +6,7 @@ import FFVerif.Model.Proto
 import FFVerif.Props.C01
 import FFVerif.Props.C02
 import FFVerif.Props.C05
+import FFVerif.Props.C06
 import FFVerif.Props.C19
 open FF FF.Proto
 
@@ -110,6 +111,16 @@ def handle (toks : List String) : Option String :=
     let rows ← parseIntTable rows
     let out ← parseIntTable out
     some (showFail (C19.failingAgg b rows out))
+  | ["c06jo", h, cs] => do
+    let h ← parseList h
+    let cs ← parseCycs cs
+    some (showFail (C06.failingJo h cs))
+  | ["c06ry", h, cs, t, rf] => do
+    let h ← parseList h
+    let cs ← parseCycs cs
+    let t ← parseTable t
+    let rf ← parseTable rf
+    some (showFail (C06.failingRy h cs t rf))
   | ["c01mat", h, m] => do
     let h ← parseList h
     let m ← parseTriples m
